@@ -273,6 +273,17 @@ def _fold_lookup(node):
             g = None
         if g is not None and en.prog.is_respelling(g, node.args[0]):
             return node.args[0]
+        if g is not None and len(g.params) == 1 and not any(
+                isinstance(y, (ast.Yield, ast.YieldFrom))
+                for y in ast.walk(g.node)):
+            # an identity function: `def f(x): return x`
+            from .util import inert_stmt as _inert
+            body = [b for b in g.node.body if not _inert(b)]
+            if len(body) == 1 and isinstance(body[0], ast.Return) and \
+                    isinstance(body[0].value, ast.Name) and \
+                    body[0].value.id == g.params[0] and \
+                    not g.node.decorator_list:
+                return node.args[0]
     ctor = node.func if isinstance(node, ast.Call) else None
     if isinstance(ctor, ast.Name) and ctor.id.startswith('SYM_v') and \
             en is not None and isinstance(en.defs.get(ctor.id), ast.Call):
